@@ -1,10 +1,10 @@
 (* C15 -- sortx.SliceBy sorts keys and carries values along; Unique* collapse runs.
    This file contains only the property theorems (full statements), each closed by
    [exact] of a lemma proved in proofs/SortProofs.v, proofs/SortSorted.v,
-   proofs/UniqueProofs.v, and Print Assumptions.
+   proofs/SortPivot.v, proofs/UniqueProofs.v, and Print Assumptions.
    Model: models/Sort.v (introsort of sortx/zfuncversion.go over the two slices, with
    Less/Swap as the only accesses, a Less counter and explicit fuel), models/Unique.v. *)
-From Got Require Import Base Sort Unique SortProofs SortSorted UniqueProofs.
+From Got Require Import Base Sort Unique SortProofs SortSorted SortPivot UniqueProofs.
 Require Import Permutation Sorted.
 Local Open Scope Z_scope.
 
@@ -105,22 +105,24 @@ Proof.
 Qed.
 Print Assumptions c15_quicksort_sorted_given_partition.
 
-(* FULL STATEMENT (target, not proved in Coq):
-     c15_sliceby_sorted :
-       forall K V less, c15_strict_weak_order less -> forall keys vals s',
-         srt_sliceby less keys vals = SOk s' ->
-         StronglySorted (srt_le less) (firstn (Nat.min (length keys) (length vals)) (st_keys s')).
-   PROVED: the same statement under the additional hypothesis srt_partition_ok less, i.e.
-   that the model's doPivot returns a valid three-zone partition.  What is missing is the
-   lemma  dopivot_partition : c15_strict_weak_order less -> srt_partition_ok less
-   (loop invariants of the two partition loops, the ninther/medianOfThree ordering and the
-   duplicate-protection branch of srt_do_pivot).  Everything else on the path (insertion
-   sort, heap sort, the recursion of quickSort, the frame/permutation facts) is proved.
-   At run time (vlib/c15.py) the missing lemma is TESTED, not proved: srt_do_pivot of the
-   extracted model is run on >= 1500 segments (all adversarial families, lo > 0, tails) and
-   the three-zone postcondition is checked; the monitor checks sortedness of the Go result
-   on every generated case and the Go result equals the model result (keys, values, number
-   of Less calls). *)
+(* doPivot_func returns a three-zone partition of its segment [a,b) (b - a > 12, the only
+   way quickSort calls it): a <= mlo <= mhi <= b and there is a pivot value p with
+   keys[a,mlo) not after p, keys[mlo,mhi) equivalent to p, keys[mhi,b) not before p.
+   Covers medianOfThree/ninther, the first scan, the main swap loop, the duplicate check
+   (dups), the protect loop and the final swap.  Needs only irreflexivity + transitivity. *)
+Theorem c15_dopivot_partition :
+  forall (K V : Type) (less : K -> K -> bool), c15_strict_weak_order less ->
+  forall a b (s : srt_state K V) mlo mhi s',
+    0 <= a -> 12 < b - a -> srt_wf b s ->
+    srt_do_pivot less a b s = SOk ((mlo, mhi), s') ->
+    srt_pivot_post less (st_keys s') a b mlo mhi.
+Proof.
+  exact (fun K V less H => @dopivot_partition K V less (proj1 H) (proj1 (proj2 H))).
+Qed.
+Print Assumptions c15_dopivot_partition.
+
+(* the conditional form (kept): sortedness of SliceBy's result given srt_partition_ok;
+   the hypothesis is discharged by c15_dopivot_partition in c15_sliceby_sorted below *)
 Theorem c15_sliceby_sorted_partial :
   forall (K V : Type) (less : K -> K -> bool), c15_strict_weak_order less ->
   srt_partition_ok (V:=V) less ->
@@ -133,6 +135,21 @@ Proof.
              keys vals s' HP).
 Qed.
 Print Assumptions c15_sliceby_sorted_partial.
+
+(* FULL STATEMENT: for every strict weak order, after SliceBy the first
+   min(len keys, len values) keys are sorted: no earlier key is after a later one
+   (srt_le less x y := less y x = false) *)
+Theorem c15_sliceby_sorted :
+  forall (K V : Type) (less : K -> K -> bool), c15_strict_weak_order less ->
+  forall (keys : list K) (vals : list V) s',
+    srt_sliceby less keys vals = SOk s' ->
+    StronglySorted (srt_le less) (firstn (Nat.min (length keys) (length vals)) (st_keys s')).
+Proof.
+  exact (fun K V less H keys vals s' =>
+           @sliceby_sorted_given_partition K V less (proj1 H) (proj1 (proj2 H)) (proj2 (proj2 H))
+             keys vals s' (@dopivot_partition K V less (proj1 H) (proj1 (proj2 H)))).
+Qed.
+Print Assumptions c15_sliceby_sorted.
 
 (* ---------- Unique ---------- *)
 
